@@ -63,6 +63,22 @@ What is enumerated (DESIGN.md section 7, C17; sensitivity classes of section 6):
                triples of bound-method watchers over effect x precedence x parameters: dispatch order decided by
                precedence against registration order, ties by registration order, depends methods first), shapes x
                precedence (shape A at precedence 2 registered before shape B at precedence 1)
+  watcher handles kept by the object  class Hand(Wat): `h:<shape>.<effect>@<precedence>:<parameters>` (`hq:` = queued)
+               registers a value watcher like `w:` and KEEPS the handle param.watch returns in ordinary attributes
+               (list `handles`, the first one also as `_handle`); the copy holds handles of its own and uses them: post
+               alphabet {unw:<k> (param.unwatch with the k-th handle), rew:<k> (unwatch, then watch the same callback
+               again and keep the new handle), unwa (unwatch every handle), setp, setq, upd2, trigp}: the same history
+               that stops / re-arms the callback on a never-copied object must do so on the copy, and on the copy only
+               (nothing here raises when it fails -- param.unwatch only warns --, the invocation logs show it);
+               singles over shapes x {0 on p, 1 on (p, q), queued 2 on q}, pairs incl. the same callback twice
+  copies from inside watcher callbacks of every kind  `cls=Cb ctx=cb.<fire>.<order>.<D>.<C>.<Y>`: the dispatch is
+               started by fire in {set, upd (param.update of two parameters), trig, batch (assignment inside
+               batch_call_watchers)}; watcher D on x (queued or not, precedence 0-2) assigns y, ANOTHER watched parameter,
+               from inside its callback; the copy is taken from inside the callback of watcher C (queued or not,
+               precedence 0-2, watching x or y; registered before or after D); the watcher logging y is queued or not.
+               Oracle as for the contexts above, except that the callbacks still to run at the copy point change
+               values here: 'pending calls not made on the copy' is a never-copied IDLE object built in the state of the
+               copy point (K.idle_reference), 'pending calls made' is the never-copied object after its dispatch
   x copy mechanism {copy.deepcopy, pickle protocol 2, 3, 4, 5}
   x post-history applied afterwards, first to the copy and then to the original, over
                {set, mut, pedit, pmut, attach, subset, attr, const (assign the constant), watch}.
@@ -103,6 +119,10 @@ CTX_POST = tuple(K.CTX_POST_OPS)
 NK = len(K.VALUE_KINDS)
 WAT_POST = tuple(K.WAT_POST)
 W = K.w_op
+HAND_POST = tuple(K.HAND_POST)
+H = K.h_op
+CB_PRE = tuple(K.CB_PRE_OPS)
+CB_POST = tuple(K.CB_POST_OPS)
 
 
 def pre_alphabet(cname):
@@ -110,6 +130,8 @@ def pre_alphabet(cname):
         return MULTI_PRE
     if cname.startswith("Multi@"):
         return CTX_PRE
+    if cname.startswith("Cb@"):
+        return CB_PRE
     return SLOT_PRE if cname in SLOT_CLASSES else PRE
 
 
@@ -122,6 +144,10 @@ def post_alphabet(cname):
         return CTX_POST
     if cname == "Wat":
         return WAT_POST
+    if cname == "Hand":
+        return HAND_POST
+    if cname.startswith("Cb@"):
+        return CB_POST
     return SLOT_POST if cname in SLOT_CLASSES else POST
 
 
@@ -398,9 +424,123 @@ def plan_new_families(tier, seed):
 def _wat_mechs(pre, mechs):
     """a lambda is not picklable: histories that register one are copied with copy.deepcopy only"""
     for op in pre:
-        if op.startswith("w:") and K.parse_w(op[2:])[0] in K.UNPICKLABLE_SHAPES:
+        if op.startswith(("w:", "h:", "hq:")) and K.parse_w(op.split(":", 1)[1])[0] in K.UNPICKLABLE_SHAPES:
             return ("deepcopy",)
     return mechs
+
+
+def plan_hand(tier, seed):
+    """watcher handles kept by the object and used after the copy (class Hand): every callable shape x {precedence 0
+    on p, precedence 1 on (p, q) as one watcher, queued at precedence 2 on q}; the handle is used by the post-history
+    (unwatch / unwatch + watch again / unwatch all), followed by assignments that show whether the callback still
+    runs"""
+    shapes = K.W_SHAPES
+    ops = ([H(s_, "add1", 0, "p") for s_ in shapes] + [H(s_, "mul2", 1, "pq") for s_ in shapes]
+           + [H(s_, "add1", 2, "q", True) for s_ in shapes])
+    core = [H("meth", "add1", 0, "p"), H("meth", "mul2", 1, "pq"), H("pbound", "add1", 0, "p"),
+            H("pfunc", "mul2", 1, "pq"), H("other", "add1", 0, "p"), H("cobjown", "mul2", 1, "pq"),
+            H("othersub", "add1", 2, "q", True), H("meth", "add1", 2, "q", True)]
+    pairs_core = [(a, b) for a in core for b in core]          # incl. the same callback registered twice
+    pairs_all = [(a, b) for a in ops for b in ops]
+    tasks = []
+
+    def add(pre, maxpost, mechs):
+        tasks.append(("Hand", tuple(pre), maxpost, _wat_mechs(pre, mechs)))
+    if tier == "thorough":
+        for op in ops:
+            add((op,), 2, MECHS7)
+            if op in core:
+                add((op,), 3, ("deepcopy",))
+            add(("set", op), 1, MECHS2)
+            add(("attach", op), 2, MECHS2)
+        for pre in pairs_core:
+            add(pre, 2, MECHS3)
+        for i, pre in enumerate(pairs_all):
+            add(pre, 1, ("deepcopy",) if i % 2 else ("pickle5",))
+        bound = ("watcher handles kept by the object: class Hand, operations h:/hq:<shape>.<effect>@<precedence>:"
+                 "<parameters> (the handle returned by param.watch is kept in ordinary attributes) over %d operations "
+                 "(%d shapes x {add1@0:p, mul2@1:(p,q), queued add1@2:q}); post alphabet of %d operations {unwatch the "
+                 "k-th handle, unwatch + watch again, unwatch every handle, setp, setq, upd2, trigp}: each operation "
+                 "alone x post-histories <= 2 x {deepcopy, pickle 0-5} (8 core operations also x post-histories <= 3 x "
+                 "deepcopy), also after set (attach) x post-histories <= 1 (<= 2) x {deepcopy, pickle5}; %d pairs over "
+                 "8 core operations (incl. the same callback registered twice) x post-histories <= 2 x {deepcopy, pickle "
+                 "2, 5}; all %d pairs x post-histories <= 1 x one mechanism (alternating); lambda: deepcopy only"
+                 % (len(ops), len(shapes), len(HAND_POST), len(pairs_core), len(pairs_all)))
+        return tasks, False, bound
+    for i, op in enumerate(ops):
+        if not op.startswith("hq:") or i % 4 == seed % 4:
+            add((op,), 2, ("deepcopy",) if (i + seed) % 2 else ("pickle5",))
+        add((op,), 1, MECHS2)
+    for i, pre in enumerate(pairs_core):
+        if pre[0] == pre[1] or i % 8 == seed % 8:
+            add(pre, 2, ("deepcopy",) if (i + seed) % 2 else ("pickle5",))
+    for i, op in enumerate(core):
+        if i % 2 == seed % 2:
+            add(("attach", op), 1, MECHS2)
+    bound = ("watcher handles kept by the object: class Hand, operations h:/hq:<shape>.<effect>@<precedence>:"
+             "<parameters> (the handle returned by param.watch is kept in ordinary attributes) over %d operations (%d "
+             "shapes x {add1@0:p, mul2@1:(p,q), queued add1@2:q}); post alphabet of %d operations {unwatch the k-th "
+             "handle, unwatch + watch again, unwatch every handle, setp, setq, upd2, trigp}: each operation alone x "
+             "{post-histories <= 1 x {deepcopy, pickle5}; post-histories <= 2 x one mechanism (alternating; of the "
+             "queued ones a seed-chosen quarter)}; of %d pairs over 8 core operations the 8 that register the same "
+             "callback twice and a seed-chosen eighth of the others x post-histories <= 2 x one mechanism; half of the core "
+             "operations after attach x post-histories <= 1 x {deepcopy, pickle5}; lambda: deepcopy only"
+             % (len(ops), len(shapes), len(HAND_POST), len(pairs_core)))
+    return tasks, True, bound
+
+
+def cb_contexts(precs):
+    out = []
+    for fire in ("set", "upd", "trig", "batch"):
+        for order in ("dc", "cd"):
+            for dq in "qn":
+                for cq in "qn":
+                    for dp, cp in precs:
+                        for ct in "xy":
+                            for yq in "qn":
+                                out.append("Cb@" + K.cb_ctx(fire, order, dq, dp, cq, cp, ct, yq))
+    return out
+
+
+def plan_cb(tier, seed):
+    """copies taken from inside watcher callbacks of every kind (class Cb, contexts cb.<fire>.<order>.<D>.<C>.<Y>)"""
+    rel = ((0, 1), (1, 0), (1, 1))                 # D before C, C before D, tie (decided by registration order)
+    allp = tuple((a, b) for a in (0, 1, 2) for b in (0, 1, 2))
+    tasks = []
+    if tier == "thorough":
+        small = set(cb_contexts(rel))
+        for i, c in enumerate(cb_contexts(allp)):
+            tasks.append((c, (), 1, MECHS3))
+            if c in small:
+                tasks.append((c, (), 1, MECHS7))
+                if i % 3 == 0:
+                    tasks.append((c, (), 2, ("deepcopy",)))
+                tasks.append((c, ("watch",), 1, MECHS2))
+        bound = ("copies taken from inside watcher callbacks: class Cb, %d contexts = fire {set, update, trigger, "
+                 "assignment inside a batch} x registration order x deriving watcher D on x (assigns y, another watched "
+                 "parameter; queued or not; precedence 0-2) x copying watcher C (queued or not; precedence 0-2; watching "
+                 "x or y) x logging watcher of y queued or not: no pre-history x post-histories <= 1 over %d operations "
+                 "x {deepcopy, pickle 2, 5}; the %d contexts with precedences (0,1), (1,0), (1,1) also x {deepcopy, "
+                 "pickle 0-5}, a third of them x post-histories <= 2 x deepcopy, and after a user watcher x "
+                 "post-histories <= 1 x {deepcopy, pickle5}" % (len(cb_contexts(allp)), len(CB_POST), len(small)))
+        return tasks, False, bound
+    quick_ctxs = [c for c in cb_contexts(rel) if ".cd." not in c or c.split(".")[3][1] == c.split(".")[4][1]]
+    for i, c in enumerate(quick_ctxs):
+        if i % 8 == seed % 8:
+            tasks.append((c, (), 1, MECHS3))
+        else:
+            tasks.append((c, (), 1, ("deepcopy",) if (i + seed) % 2 else ("pickle5",)))
+        if i % 48 == seed % 48:
+            tasks.append((c, (), 2, ("deepcopy",)))
+            tasks.append((c, ("watch",), 1, ("pickle5",)))
+    bound = ("copies taken from inside watcher callbacks: class Cb, %d contexts = fire {set, update, trigger, "
+             "assignment inside a batch} x registration order x deriving watcher D on x (assigns y, another watched "
+             "parameter; queued or not) x copying watcher C (queued or not; watching x or y) x precedences (D, C) in "
+             "{(0,1), (1,0), (1,1)} (the second registration order only for the tie) x logging watcher of y queued or not: no pre-history x post-histories <= 1 over %d "
+             "operations x one mechanism (alternating; a seed-chosen eighth x {deepcopy, pickle 2, 5}); a seed-chosen "
+             "48th also x post-histories <= 2 x deepcopy and after a user watcher x pickle5"
+             % (len(quick_ctxs), len(CB_POST)))
+    return tasks, True, bound
 
 
 def plan_wat(tier, seed):
@@ -533,6 +673,11 @@ def plan(tier, seed):
     tasks += t3
     sampled = sampled or s3
     bound += "; " + b3
+    for planner in (plan_hand, plan_cb):
+        t4, s4, b4 = planner(tier, seed)
+        tasks += t4
+        sampled = sampled or s4
+        bound += "; " + b4
     # a task over post-histories <= 2 covers those <= 1: never run a (class, pre, mechanism, post) twice
     best = {}
     for cname, pre, maxpost, mechs in tasks:
@@ -559,7 +704,10 @@ def _run(tier, seed):
               "several parameters x updates of several parameters at once; copies taken in the middle of a dispatch: "
               "inside a batch, inside discard_events, inside a watcher callback); Wat (value watchers registered "
               "with param.watch on the instance: every callable shape x explicit precedences, next to depends methods "
-              "on the same parameters, all with order-sensitive effects); "
+              "on the same parameters, all with order-sensitive effects); Hand (the handles returned by param.watch are "
+              "kept in ordinary attributes and used after the copy: unwatch, unwatch + watch again); Cb (copies taken "
+              "from inside watcher callbacks: queued / non-queued x precedence x a sibling callback that assigns another "
+              "watched parameter x how the dispatch was started); "
               "one case = (model class, pre-history, copy mechanism, post-history); the post-history is applied to "
               "the copy and then to the original and both objects are compared after each phase with an object "
               "that was never copied (values, Parameter attributes, ordinary attributes, invocation logs, operation "
@@ -621,11 +769,12 @@ def _run(tier, seed):
                     B.violation(clause, mine[0][6])
                 folded_attr[clause] = folded_attr.get(clause, 0) + 1
                 continue
-        if cname == "Wat":
+        if cname in ("Wat", "Hand") or cname.startswith("Cb@"):
             # cap: one defect of the watcher re-binding shows up under many (shape, effect, precedence, parameters)
-            # combinations; at most 6 witnesses (the shortest histories) per clause and kind of difference
-            mine = [r for r in reported if (r[0], r[1], r[2]) == (clause, cname, dpath)]
-            if len(mine) >= 6:
+            # combinations (one defect of the dispatch state of a copy under many callback contexts); at most 6
+            # witnesses (the shortest histories; 3 for the handle family) per clause and kind of difference
+            mine = [r for r in reported if (r[0], r[1].partition("@")[0], r[2]) == (clause, cname.partition("@")[0], dpath)]
+            if len(mine) >= (3 if cname == "Hand" else 6):
                 for _ in mechs:
                     B.violation(clause, mine[0][6])
                 folded_wat[(clause, dpath)] = folded_wat.get((clause, dpath), 0) + 1
@@ -647,8 +796,8 @@ def _run(tier, seed):
         B.note("%s: %d further failing (attribute name, history) classes of the ordinary-attribute family folded "
                "into the first witness (cap 8 per clause)" % (cl, n))
     for (cl, dp), n in sorted(folded_wat.items()):
-        B.note("%s diff=%s: %d further failing histories of the watcher shape / precedence family folded into the "
-               "first witness (cap 6 per clause and kind of difference)" % (cl, dp, n))
+        B.note("%s diff=%s: %d further failing histories of the watcher shape / precedence / handle / callback-context "
+               "families folded into the first witness (cap 6 per family, clause and kind of difference)" % (cl, dp, n))
     if unclean:
         B.note("%d tasks left the model classes' own Parameters changed (per-instance state leaked into the class); "
                "the differential oracle stays self-consistent but see C12" % unclean)
